@@ -144,7 +144,16 @@ func Progs(rc *vk.Rec) {
 				if mode != "c04" || i >= len(traces) || traces[i] == nil {
 					continue
 				}
-				if len(p.out.Events) > 0 || p.out.Unsupported != "" {
+				// a safety or fact event means the program has no defined meaning;
+				// other interpreter notes (C04: shapes where the C is expected to
+				// stray) do not excuse anything: the traces are compared
+				undefined := p.out.Unsupported != ""
+				for _, ev := range p.out.Events {
+					if ev.Prop == "C01" || ev.Prop == "C02" {
+						undefined = true
+					}
+				}
+				if undefined {
 					continue
 				}
 				// C04: trace comparison
